@@ -212,8 +212,10 @@ func methodGrid() []MethodCase {
 		}
 	}
 	// .decimal(p,s)
-	precs := []int64{1, 2, 3, 6, 15, 16, 38, 1000, 0, 1001, -1, 2147483648}
-	scales := []int64{-1000, -2, -1, 0, 1, 2, 15, 308, 400, 1000, 1001, -1001, 2147483648, -2147483649}
+	// (the int32 limits themselves are in range as integers, so they reach the precision / scale
+	// check and its non-suppressible error; one beyond is not an integer argument at all)
+	precs := []int64{1, 2, 3, 6, 15, 16, 38, 1000, 0, 1001, -1, 2147483648, 2147483647, -2147483648}
+	scales := []int64{-1000, -2, -1, 0, 1, 2, 15, 308, 400, 1000, 1001, -1001, 2147483648, -2147483649, 2147483647, -2147483648}
 	for _, n := range []string{"0", "1", "-1", "0.5", "1.5", "2.5", "9.99", "99.5", "100", "101", "12345.678", "1e308", "5e-324", "0.05", "-0.05", "1e21", "0.001", "999.999", "-999.995", "1e-7", "123456789012345678", "0.1", "5", "50", "0.04", "0.06"} {
 		for _, p := range precs {
 			out = append(out, MethodCase{Chain: fmt.Sprintf(".decimal(%d)", p), Value: Operand{"f64", n}})
